@@ -541,6 +541,10 @@ class Sim:
             self.add('C03', 'run set differs from the make-semantics model', dict(
                 started=started, predicted=pred['run'], missing=missing, extra=extra,
                 why={k_: pred['why'].get(k_) for k_ in missing + extra}, targets=targets), known=known)
+            if missing and res['status'] == 0:
+                # C06's termination clause: a build that ends with success has run everything that was needed
+                self.add('C06', 'build ended with success although needed commands were never started', dict(
+                    missing=missing, started=started, targets=targets, err=res['err']), known=known)
             if known:
                 self.stop = True
         # ---------- C01 content
